@@ -488,7 +488,8 @@ func (g *gen) collect(t *coin.Transaction, tab idtab) *facts {
 			}
 			var pk cipher.PubKey
 			var e2 error
-			if !Guard(func() { pk, e2 = cipher.PubKeyFromSig(s, h) }) && e2 == nil {
+			// the recovered address matters only when recovery works (null signatures never recover)
+			if e != cipher.ErrInvalidSigPubKeyRecovery && !Guard(func() { pk, e2 = cipher.PubKeyFromSig(s, h) }) && e2 == nil {
 				addr = g.aid(cipher.AddressFromPubKey(pk))
 			}
 		} else {
@@ -637,55 +638,78 @@ func cnt(i int) cipher.SHA256 {
 	return h
 }
 
-func (g *gen) bigCase(kind int) (*coin.Transaction, string) {
+// bigShape describes a transaction at a count threshold of Transaction.verify
+// (math.MaxUint16 for signatures+inputs and for outputs; signatures vs inputs):
+// the arrays follow a rule (input i = 32-byte big-endian i+1; output i = (addr, 3
+// coins, i hours); null signatures) so that the cases file carries a compact
+// descriptor (zrange / gen_outs / rep in Model/TxVerify.v), never the literals
+type bigShape struct {
+	nin, nsigs, nout int
+	dupIn, dupOut    bool
+	oneSig           bool // one real signature, the rest null
+}
+
+func (b bigShape) label() string {
+	l := fmt.Sprintf("in=%d,sigs=%d,out=%d", b.nin, b.nsigs, b.nout)
+	if b.dupIn {
+		l += ",dup-in"
+	}
+	if b.dupOut {
+		l += ",dup-out"
+	}
+	return l
+}
+
+// every count constant verify compares against, at constant-1 / constant / constant+1
+func thresholdFamily(thorough bool) []bigShape {
+	const M = 65535
+	fam := []bigShape{
+		{nin: M - 1, nsigs: M - 1, nout: 1}, {nin: M, nsigs: M, nout: 1, oneSig: true}, {nin: M + 1, nsigs: M + 1, nout: 1},
+		{nin: 1, nsigs: 1, nout: M - 1, oneSig: true}, {nin: 1, nsigs: 1, nout: M, oneSig: true}, {nin: 1, nsigs: 1, nout: M + 1},
+		{nin: M, nsigs: M - 1, nout: 1}, {nin: M, nsigs: M + 1, nout: 1}, {nin: M - 1, nsigs: M, nout: 1},
+		{nin: M, nsigs: M, nout: 1, dupIn: true},
+	}
+	if thorough {
+		fam = append(fam,
+			bigShape{nin: 1, nsigs: 1, nout: M, dupOut: true},
+			bigShape{nin: M, nsigs: M, nout: M},
+			bigShape{nin: M + 1, nsigs: M + 1, nout: M + 1},
+			bigShape{nin: M, nsigs: M, nout: M + 1},
+			bigShape{nin: M + 1, nsigs: M, nout: 1},
+			bigShape{nin: 2, nsigs: 2, nout: M, dupIn: true})
+	}
+	return fam
+}
+
+func (g *gen) bigCase(b bigShape) (*coin.Transaction, string) {
 	t := &coin.Transaction{}
 	a := g.addrs[0]
-	nin, nout := 1, 1
-	label := ""
-	switch kind {
-	case 0:
-		nin, label = 65535, "in=65535"
-	case 1:
-		nin, label = 65536, "in=65536"
-	case 2:
-		nout, label = 65535, "out=65535"
-	case 3:
-		nout, label = 65536, "out=65536"
-	case 4:
-		nin, label = 65535, "in=65535,dup"
-	case 5:
-		nout, label = 65535, "out=65535,dup"
-	case 6:
-		nin, label = 65535, "in=65535,sigs=65536"
-	case 7:
-		nin, nout, label = 65535, 65535, "in=65535,out=65535"
-	}
-	for i := 0; i < nin; i++ {
+	for i := 0; i < b.nin; i++ {
 		t.In = append(t.In, cnt(i+1))
 	}
-	for i := 0; i < nout; i++ {
+	for i := 0; i < b.nout; i++ {
 		t.Out = append(t.Out, coin.TransactionOutput{Address: a, Coins: 3, Hours: uint64(i)})
 	}
-	if kind == 4 {
-		t.In[nin-1] = cnt(7)
+	if b.dupIn {
+		t.In[b.nin-1] = cnt(1)
+		if b.nin > 7 {
+			t.In[b.nin-1] = cnt(7)
+		}
 	}
-	if kind == 5 {
-		t.Out[nout-1] = t.Out[9]
+	if b.dupOut {
+		t.Out[b.nout-1] = t.Out[9]
 	}
-	t.Sigs = make([]cipher.Sig, nin)
-	if kind == 6 {
-		t.Sigs = make([]cipher.Sig, nin+1)
-	}
+	t.Sigs = make([]cipher.Sig, b.nsigs)
 	if err := t.UpdateHeader(); err != nil {
 		// over the encoder's limit: set what can be set
 		t.Length = uint32(49 + 65*len(t.Sigs) + 32*len(t.In) + 37*len(t.Out))
 		Guard(func() { t.InnerHash = t.HashInner() })
 	}
-	if kind == 0 && len(g.keys) > 0 { // one real signature, the rest null
+	if b.oneSig && len(g.keys) > 0 && b.nsigs > 0 {
 		h := cipher.AddSHA256(t.InnerHash, t.In[0])
 		t.Sigs[0] = cipher.MustSignHash(h, g.keys[0].sec)
 	}
-	return t, label
+	return t, b.label()
 }
 
 // ---- byte strings for DeserializeTransaction
@@ -895,11 +919,7 @@ func run(args []string) error {
 	}
 	// ---- group big
 	var bigs []string
-	kinds := []int{0, 1, 3, 4} // big output arrays cost ~10 s each inside Coq: thorough tier
-	if thorough {
-		kinds = []int{0, 1, 2, 3, 4, 5, 6, 7}
-	}
-	for _, k := range kinds {
+	for _, k := range thresholdFamily(thorough) {
 		t, label := g.bigCase(k)
 		fa := g.collect(t, idtab{})
 		os, ou, cs, cu := observe(t)
